@@ -21,6 +21,23 @@ CLAIMED = {
     ),
 }
 
+CLAIMED.update({
+    "C08": dict(
+        technique="order-type evaluation of bin/NaN/mask guards (truth tables over path conditions), symbolic loop-bound analysis, dispatch-table agreement (AST over the Cython kernels)",
+        text="The bin-membership guard of both pair kernels is evaluated over all 5 order types of the distance against the two edges and must equal the documented "
+        "half-open interval; loop bounds are shown to enumerate each unordered pair / (cell, lag) once; count and value are updated together under a guard that "
+        "excludes a pair iff either value is missing; dispatch tables of estimator, normalisation and distance agree between Python and the kernels. "
+        "Exhaustive over the guard's order types and all accumulation sites; does not decide numerical constants or geometry formulas.",
+        ref="DESIGN.md section 4 C08, section 3 E5/E10",
+    ),
+    "C16": dict(
+        technique="AST dataflow/index-agreement check of the solenoidal projector in summate_incompr and of IncomprRandMeth.__call__",
+        text="Shows the projector is e1[d] - k[d,j]k[a,j]/|k_j|^2 with |k_j|^2 taken from the same mode column and `a` equal to the axis carrying the mean velocity in both the "
+        "kernel and the generator, which makes k.p(k)=0 an identity of the code shape; dim restricted to {2,3}. Does not decide divergence values or the variance split.",
+        ref="DESIGN.md section 4 C16",
+    ),
+})
+
 NOT_APPLICABLE = {
     "C01": "distributional property over seeds (ensemble mean/covariance at Monte-Carlo rate); no code-shape clause beyond those decided under C04/C11/C12 - needs sampling or quadrature, a different technique family",
 }
